@@ -259,6 +259,16 @@ class Interp:
             cell.v = self.run_body(body, [])
         return cell
 
+    def tls_cell(self, sname):
+        key = 'tls[%d] %s' % (self.thread, sname)
+        cell = self.statics.get(key)
+        if cell is None:
+            body = self._find_static_body(sname)
+            cell = Cell(None, key)
+            self.statics[key] = cell
+            cell.v = self.run_body(body, [])
+        return cell
+
     def _find_static_body(self, sname):
         for n, b in self.mir.bodies.items():
             if b.kind == 'static' and (n == sname or n.endswith('::' + sname) or sname.endswith('::' + n)):
@@ -334,7 +344,7 @@ class Interp:
         if k == 'variant':
             return NONE
         if k == 'bytes':
-            return Opaque('bytes')
+            return Ref(Cell(Arr(tuple(v[1]), 'array'), 'bytes-const'), ())
         if k == 'float':
             return float(v[1])
         if k == 'opaque':
@@ -349,7 +359,16 @@ class Interp:
             c = self.CONSTS.get(v[1])
             if c is not None:
                 return c
-            raise Unsupported('constant ' + v[1])
+            # a named `const` item of the crate (e.g. a thread_local! key): evaluate its body
+            for n, b in self.mir.bodies.items():
+                if b.kind == 'const' and 'promoted[' not in n and (n == v[1] or v[1].endswith('::' + n) or n.endswith('::' + v[1])):
+                    key = ('constitem', n)
+                    r = self.promoted_cache.get(key)
+                    if r is None:
+                        r = self.run_body(b, [])
+                        self.promoted_cache[key] = r
+                    return r
+            return Opaque('const ' + v[1])
         raise Unsupported('const kind %r' % (v,))
 
     # ------------------------------------------------------------------ places
@@ -593,6 +612,8 @@ class Interp:
             return self.unop(rv[1], self.operand(cells, rv[2]), rv[3])
         if k == 'closure':
             return Closure(rv[1], tuple(self.operand(cells, o) for o in rv[2]))
+        if k == 'tlsref':
+            return Ref(self.tls_cell(rv[1]), ())
         if k == 'repeat':
             v = self.operand(cells, rv[1])
             return Arr((v,) * int(re.sub(r'_usize$', '', rv[2].replace('const ', '').strip())), 'array')
